@@ -64,7 +64,10 @@ def run_shard(args):
     t0 = time.time()
     try:
         mod.install()
-        mod.workload(args.tier, rng, args.shard, args.nshards, work)
+        if args.shard < 0:
+            repo_tests_workload(core)
+        else:
+            mod.workload(args.tier, rng, args.shard, args.nshards, work)
     except BaseException as e:  # a crash of the driver itself
         import traceback
 
@@ -76,6 +79,24 @@ def run_shard(args):
     out["wall_s"] = time.time() - t0
     with open(args.out, "w") as fd:
         json.dump(out, fd)
+
+
+def repo_tests_workload(core):
+    """The repository's own test-suite as a workload: every hooked call its tests and examples make is judged by
+    the property's monitors (the tests' own assertions are irrelevant here)."""
+    import contextlib
+    import io
+
+    import pytest
+
+    os.chdir(str(REPO))
+    buf = io.StringIO()
+    with contextlib.redirect_stdout(buf), contextlib.redirect_stderr(buf):
+        rc = pytest.main([str(REPO / "tests"), "-q", "-p", "no:cacheprovider", "-x", "--no-header"])
+    core.REC.note("repository test-suite under monitors: pytest exit code %s" % int(rc))
+    core.REC.cls("repo-tests-workload-ran")
+    if int(rc) != 0:
+        core.REC.note("repository tests did not pass under monitors: " + buf.getvalue()[-600:].replace("\n", " | "))
 
 
 # ----------------------------------------------------------------------
@@ -112,6 +133,11 @@ def run_property(prop, tier, seed, nshards=None, quiet=False):
                "--seed", str(seed), "--shard", str(i), "--nshards", str(n), "--out", str(out)]
         log = open(tmp / ("shard%d.log" % i), "w")
         procs.append((i, out, subprocess.Popen(cmd, env=child_env(), stdout=log, stderr=subprocess.STDOUT, cwd=str(ROOT)), log))
+    if tier == "thorough" or os.environ.get("VERIF_REPO_TESTS") == "1":
+        out = tmp / "shard_tests.json"
+        cmd = [PY, "-B", str(ROOT / "check.py"), "--shard-worker", prop, "--tier", tier, "--seed", str(seed), "--shard", "-1", "--nshards", str(n), "--out", str(out)]
+        log = open(tmp / "shard_tests.log", "w")
+        procs.append((-1, out, subprocess.Popen(cmd, env=child_env(), stdout=log, stderr=subprocess.STDOUT, cwd=str(ROOT)), log))
     inconclusive = []
     results = []
     deadline = time.time() + timeout
@@ -126,7 +152,7 @@ def run_property(prop, tier, seed, nshards=None, quiet=False):
         finally:
             log.close()
         if p.returncode != 0 or not out.exists():
-            tail = (tmp / ("shard%d.log" % i)).read_text()[-1500:]
+            tail = (tmp / ("shard%d.log" % i if i >= 0 else "shard_tests.log")).read_text()[-1500:]
             inconclusive.append("shard %d died rc=%s: %s" % (i, p.returncode, tail))
             continue
         results.append(json.loads(out.read_text()))
